@@ -13,7 +13,9 @@ simulator built against it and its own target directories. Restartable: one resu
 import hashlib, json, os, re, signal, subprocess, sys, time
 from multiprocessing import Process, Queue
 
-MU = "/tmp/mu"
+MU = os.environ.get("MU_DIR", "/tmp/mu")
+# operator set: 1 = token level (first sweep), 2 = branch level (conditions forced, conjuncts dropped, relations inverted)
+OPS = int(os.environ.get("MU_OPS", "1"))
 SRC_FILES = {
     "src/countminsketch.rs": ["C02", "C06", "C10", "C19", "C11"],
     "src/hash_utils.rs": ["C01", "C02", "C06", "C10"],
@@ -59,6 +61,44 @@ def code_part(line):
     return len(line) if i < 0 else i
 
 
+INVERT = [(" < ", " > "), (" > ", " < "), (" <= ", " >= "), (" >= ", " <= "), (" + 1", ""), (" - 1", ""), (" + 1", " - 1"), (" - 1", " + 1"),
+          ("i1", "i2"), ("i2", "i1"), ("self.", "other."), ("other.", "self."), (".0", ".1"), (".1", ".0"), ("first", "last"), ("last", "first"),
+          ("min", "max"), ("max", "min"), ("quotient", "remainder"), ("left", "right"), ("right", "left"), ("Some(", "None::<()>.or(Some("), ("w", "d"), ("d", "w")]
+
+
+def branch_cands(code):
+    """(col, old, new) candidates of the branch-level operator set"""
+    out = []
+    m = re.match(r"^(\s*(?:\} else )?if )(.+?)( \{\s*)$", code)
+    if m and not m.group(2).startswith("let "):
+        cond = m.group(2)
+        c0 = len(m.group(1))
+        out.append((c0, cond, "true"))
+        out.append((c0, cond, "false"))
+        out.append((c0, cond, "!(" + cond + ")"))
+        for op in (" && ", " || "):
+            if op in cond and cond.count("(") == cond.count(")"):
+                parts = cond.split(op)
+                # only split at top level
+                ok = all(p.count("(") == p.count(")") for p in parts)
+                if ok and len(parts) >= 2:
+                    for i in range(len(parts)):
+                        out.append((c0, cond, op.join(parts[:i] + parts[i + 1:])))
+    m = re.match(r"^(\s*while )(.+?)( \{\s*)$", code)
+    if m and not m.group(2).startswith("let "):
+        out.append((len(m.group(1)), m.group(2), "false"))
+    for old, new in INVERT:
+        if old in ("w", "d", "min", "max", "first", "last", "left", "right", "quotient", "i1", "i2"):
+            it = re.finditer(r"(?<![A-Za-z0-9_])" + re.escape(old) + r"(?![A-Za-z0-9_])", code)
+        elif old in (".0", ".1"):
+            it = re.finditer(re.escape(old) + r"(?![0-9A-Za-z_.])", code)
+        else:
+            it = re.finditer(re.escape(old), code)
+        for mm in it:
+            out.append((mm.start(), old, new))
+    return out
+
+
 def gen():
     os.makedirs(MU, exist_ok=True)
     out = []
@@ -79,30 +119,32 @@ def gen():
             cp = code_part(l)
             code = l[:cp]
             cands = []
-            for old, news in BINOPS:
+            if OPS == 2:
+                cands = branch_cands(code)
+            for old, news in BINOPS if OPS == 1 else []:
                 for m in re.finditer(re.escape(old), code):
                     for new in news:
                         cands.append((m.start(), old, new))
-            for old, new in WORDS:
+            for old, new in WORDS if OPS == 1 else []:
                 for m in re.finditer(re.escape(old), code):
                     if old in ("true", "false"):
                         a, b = m.start(), m.end()
                         if (a > 0 and (code[a - 1].isalnum() or code[a - 1] == "_")) or (b < len(code) and (code[b].isalnum() or code[b] == "_")):
                             continue
                     cands.append((m.start(), old, new))
-            for m in INT.finditer(code):
+            for m in INT.finditer(code) if OPS == 1 else []:
                 v = int(m.group(1))
                 reps = {0: ["1"], 1: ["0", "2"], 2: ["1", "3"]}.get(v, [str(v + 1), str(v - 1)])
                 for r in reps:
                     cands.append((m.start(), m.group(1), r))
-            for m in FLOAT.finditer(code):
+            for m in FLOAT.finditer(code) if OPS == 1 else []:
                 v = float(m.group(1))
                 reps = ["1.0"] if v == 0.0 else [repr(v * 2.0), repr(v / 2.0)]
                 for r in reps:
                     cands.append((m.start(), m.group(1), r))
             # statement deletion
             s = code.strip()
-            if s.endswith(";") and not s.startswith(("let ", "return", "type ", "const ", "static ", "pub ", "fn ", "}")) and s.count("(") == s.count(")") and s.count("{") == s.count("}"):
+            if OPS == 1 and s.endswith(";") and not s.startswith(("let ", "return", "type ", "const ", "static ", "pub ", "fn ", "}")) and s.count("(") == s.count(")") and s.count("{") == s.count("}"):
                 cands.append((len(l) - len(l.lstrip()), "<stmt>", ""))
             for col, old, new in cands:
                 if old == "<stmt>":
